@@ -6,7 +6,7 @@
 From Krp Require Import Tactics Prelude Fixed FMap Types Env Registry Cw20 Reward Dispatcher Hub Exec
      ExecP Hist Inv RegistryP HubFrame HubAdmin Cw20P TokenWorld MirrorWire MirrorP HubRates
      BooksEnv BooksHub BooksP BooksLiquid IndexRun IndexEnv IndexHandlers IndexPhases ExitWorld
-     RateTxLegs RateTx.
+     RateTxLegs RateTx RateTxConvert.
 Open Scope N_scope.
 
 Definition rx_setup : list op := firstn 7 genesis_ops.
@@ -163,4 +163,43 @@ Proof.
   split; [exact rx_mirrorS|]. split; [exact rx_E1_S|].
   split; [apply rx_nrh; vm_compute; reflexivity|].
   repeat split; rx_conc.
+Qed.
+
+(** the two Convert transactions succeed in the slashed world; reported rates do not fall *)
+Example convert_tx_runs :
+  exists w1 tr1 w2 tr2 s1 s2,
+    run tx_fuel worldS [(alice, MWasm A_bsei (WCw20 (CSend A_hub 1000 HkConvert)) [])] [] = Some (w1, tr1) /\
+    run tx_fuel worldS [(bob, MWasm A_stsei (WCw20 (CSend A_hub 1000 HkConvert)) [])] [] = Some (w2, tr2) /\
+    hub_query_state w1 A_hub = Some s1 /\ hub_query_state w2 A_hub = Some s2 /\
+    hs_ber rx_sS <= hs_ber s1 /\ hs_ser rx_sS <= hs_ser s1 /\
+    hs_ber rx_sS <= hs_ber s2 /\ hs_ser rx_sS <= hs_ser s2 /\
+    length tr1 = 7%nat /\ length tr2 = 6%nat.
+Proof.
+  do 6 eexists. split; [vm_compute; reflexivity|]. split; [vm_compute; reflexivity|].
+  split; [vm_compute; reflexivity|]. split; [vm_compute; reflexivity|].
+  repeat split; rx_conc.
+Qed.
+
+(** a history of bonds and conversions satisfying the hypotheses of [rate_monotone_history] *)
+Definition rx_ops : list op :=
+  [ OTx alice A_hub (WHub HBond) [(usei, 500000)];
+    OTx bob A_stsei (WCw20 (CSend A_hub 1000 HkConvert)) [];
+    OTx alice A_bsei (WCw20 (CSend A_hub 2000 HkConvert)) [];
+    OTx bob A_hub (WHub HBondSt) [(usei, 777)];
+    OTx bob A_hub (WHub HBondSt) [(uusd, 5)] ].
+
+Example rate_history_nonvacuous :
+  Forall rate_op rx_ops /\ always RateEnv rx_ops worldS /\
+  exists s', hub_query_state (run_ops rx_ops worldS) A_hub = Some s' /\
+    hs_ber rx_sS < hs_ber s' /\ hs_ser rx_sS < hs_ser s'.
+Proof.
+  split; [|split].
+  - unfold rx_ops. repeat apply Forall_cons; [| | | | |apply Forall_nil].
+    + left. do 3 eexists. split; [reflexivity|left; reflexivity].
+    + right. do 4 eexists. split; [reflexivity|right; reflexivity].
+    + right. do 4 eexists. split; [reflexivity|left; reflexivity].
+    + left. do 3 eexists. split; [reflexivity|right; reflexivity].
+    + left. do 3 eexists. split; [reflexivity|right; reflexivity].
+  - vm_compute. repeat split; discriminate.
+  - eexists. split; [vm_compute; reflexivity|]. split; rx_conc.
 Qed.
